@@ -433,8 +433,8 @@ func (c *Conn) OpenDownstream(ctx context.Context, filters []*message.Downstream
 
 	var outages uint64
 	err = c.send(ctx, func(ctx context.Context) error {
-		outages = c.state.Outages()
 		c.wireConnMu.Lock()
+		outages = c.state.Outages() // read together with the connection the stream is bound to
 		dpsCh, err = c.wireConn.SubscribeDownstreamChunk(ctx, alias, downconf.QoS)
 		c.wireConnMu.Unlock()
 		if err != nil {
@@ -555,7 +555,6 @@ func (c *Conn) OpenDownstream(ctx context.Context, filters []*message.Downstream
 					return
 				}
 
-				down.connOutages = c.state.Outages()
 				if err := down.resume(c); err != nil {
 					down.logger.Errorf(ctx, "Failed to resume downstream: %+v", err)
 					return
